@@ -161,26 +161,19 @@ Theorem C19_refuted_size_on_element_reference :
 Proof. exact compile_factors_refuted_size_on_element_reference. Qed.
 Print Assumptions C19_refuted_size_on_element_reference.
 
-(** Non-vacuity: a recursive SEQUENCE with OPTIONAL, a DEFAULT through a
-    reference, a SIZE on a referenced SEQUENCE OF with a value reference as
-    bound; one module against the same definitions spread over three modules
-    with IMPORTS: the hypotheses of C19_move_and_import_flatten and of
-    C19_compile_factors_through_flatten hold, the unfoldings agree and are not
-    trivial. *)
-Open Scope string_scope.
-Definition ex_types : list (string * sty) :=
-  [("B", SBool);
-   ("L", SSeqOf false (SRef "B" None None) None);
-   ("R", SSeq false [mem "v" (SRef "L" (Some (Cons (BNum 1) (BVal "hi") false)) None) SMandatory;
-                     mem "f" (SRef "B" None None) (SDefault TTrue);
-                     mem "next" (SRef "R" None None) SOptional] (Some []))].
-Definition ex_one : senv := [SModule "M" "AUTOMATIC" false [] ex_types [("hi", 4)]].
-Definition ex_three : senv :=
-  [SModule "P" "AUTOMATIC" false [("Q", ["L"; "hi"]); ("M", ["B"])]
-           [("R", snd (nth 2 ex_types ("", SNull)))] [];
-   SModule "M" "AUTOMATIC" false [] [("B", SBool)] [];
-   SModule "Q" "AUTOMATIC" false [("M", ["B"])] [("L", snd (nth 1 ex_types ("", SNull)))] [("hi", 4)]].
+(** Non-vacuity ([ex_one], [ex_three] in Compile/FlattenProofs.v): a recursive
+    SEQUENCE with OPTIONAL, a DEFAULT through a reference, a SIZE on a
+    referenced SEQUENCE OF with a value reference as bound; one module against
+    the same definitions spread over three modules with IMPORTS.  All
+    hypotheses of C19_move_and_import_flatten hold for this pair, so its
+    conclusion holds at EVERY depth ... *)
+Example C19_move_example :
+  forall n, flatten 8 8 ex_one n "M" "R" = flatten 8 8 ex_three n "P" "R".
+Proof. exact example_move. Qed.
+Print Assumptions C19_move_example.
 
+(** ... both environments satisfy [env_ok], the unfolding is not trivial, and
+    the library's compile agrees on the two arrangements. *)
 Example C19_hypotheses_inhabited :
   env_ok ex_one = true /\ env_ok ex_three = true /\
   flatten 8 8 ex_one 5 "M" "R" = flatten 8 8 ex_three 5 "P" "R" /\
